@@ -181,6 +181,7 @@ async def drive_h1(env: Any, case: Dict[str, Any]) -> Any:
                 await env.sleep(0.01)
             conn.resume_reading()
         await env.settle(100.0)
+    conn.rx_before_eof = len(conn.received())  # a response is owed without the client hanging up
     conn.eof()
     await env.settle(100.0)
     return conn
@@ -267,8 +268,16 @@ async def drive_h2(env: Any, case: Dict[str, Any]) -> Any:
                     await env.sleep(0.01)
                     client.release_acks(1)
                 continue
-            # window exhausted and nothing to acknowledge: a tiny initial window needs credit
+            # window exhausted and nothing to acknowledge: a tiny initial window needs credit.
+            # (Only then: credit nobody asked for would wake a sender that stalled by itself.)
             try:
+                if min(client.h2.remote_flow_control_window(sid),
+                       client.h2.inbound_flow_control_window) > 0:
+                    await env.settle(20.0)
+                    if client.pump():
+                        stalls = 0
+                        continue
+                    break
                 client.h2.increment_flow_control_window(1 + (stalls * 7919) % 40000, sid)
                 client.flush()
             except Exception:
@@ -276,6 +285,7 @@ async def drive_h2(env: Any, case: Dict[str, Any]) -> Any:
             await env.sleep(0.01)
         await env.settle(50.0)
         client.pump()
+    conn.rx_before_eof = len(conn.received())
     conn.eof()
     await env.settle(100.0)
     return {"conn": conn, "client": client}
@@ -309,7 +319,7 @@ def judge_h1(case: Dict[str, Any], obs: Any) -> None:
         raise Violation("handler_exception", repr(conn.handler_exc), backend=be)
     reqs = case["requests"]
     methods = [r["method"] for r in reqs]
-    data = conn.received()
+    data = conn.received()[:getattr(conn, "rx_before_eof", None)]
     resps, leftover, err = parse_responses(data, methods, conn.server_gone)
     if err:
         raise Violation("malformed_response", err, backend=be)
@@ -359,7 +369,7 @@ def judge_h2(case: Dict[str, Any], obs: Any) -> None:
         raise Violation("h2c_upgrade_failed", repr(val["upgrade_failed"]), backend=be)
     if client.error:
         raise Violation("client_protocol_error", client.error, backend=be)
-    data = conn.received()
+    data = conn.received()[:getattr(conn, "rx_before_eof", None)]
     if case["opening"] == "h2c-upgrade":
         data = data[data.find(b"\r\n\r\n") + 4:]
     acct = FrameAccounting().decode(data, max_frame=case["max_frame"] or 16384)
